@@ -90,7 +90,7 @@ for has_path in (False, True):
         c.ensures('file-name-without-trailing-ls', "result == strip_ls(script_config['file_name'])")
 
 # ---- lookup and queueing
-c = contract(WA, 'WebApp.get_script_control', serves=['C20'])
+c = contract(WA, 'WebApp.get_script_control', serves=['C20', 'C08'])
 def _setup(b, case):
     sc = script_control(b)
     key = b.sym('str', 'manifest_path')
